@@ -1,6 +1,7 @@
 package storetrace
 
 import (
+	"errors"
 	"context"
 	"fmt"
 	"strconv"
@@ -413,6 +414,80 @@ func traceConcStore(t *testing.T, o opts) {
 			floorMu.Unlock()
 		}
 		cu := concUpdater(g, st)
+		// a round whose starter gives up: the caller that merely joined it must not be told the
+		// poll succeeded unless every secret really was brought up to date
+		nilButStale := 0
+		{
+			for _, n := range []string{"a", "b", "c", "d", "e"} {
+				g.bump(n)
+			}
+			want := map[string]int{}
+			g.mu.Lock()
+			for n, i := range g.cur {
+				want[n] = i
+			}
+			g.mu.Unlock()
+			g.hold.Store(true)
+			starterDone := make(chan struct{})
+			go func() {
+				defer close(starterDone)
+				cx, cancel := context.WithTimeout(context.Background(), 20*time.Millisecond)
+				defer cancel()
+				st.Refresh(cx)
+			}()
+			for lim := time.Now().Add(5 * time.Second); g.waiting.Load() == 0 && time.Now().Before(lim); {
+				time.Sleep(time.Millisecond)
+			}
+			joined := make(chan error, 1)
+			go func() { joined <- st.Refresh(context.Background()) }()
+			time.Sleep(40 * time.Millisecond) // the starter's context has ended by now
+			g.hold.Store(false)
+			close(g.gate)
+			<-starterDone
+			var jerr error
+			select {
+			case jerr = <-joined:
+			case <-time.After(10 * time.Second):
+				jerr = errors.New("joined refresh did not return")
+			}
+			g.gate = make(chan struct{})
+			if jerr == nil {
+				for _, n := range []string{"a", "b", "c", "d", "e"} {
+					if i := readIdx(n); i >= 0 && i < want[n] {
+						nilButStale++
+					}
+				}
+			}
+		}
+		// an updater for a name the service does not have: the lookup fails, the error is
+		// reported, and the store goes on serving (nothing is left locked)
+		lockLeak := 0
+		{
+			_, gerr := setec.NewUpdater(context.Background(), st, "ghost", func(b []byte) (int, error) { return len(b), nil })
+			before := make([]int64, nreaders)
+			for i := range counters {
+				before[i] = counters[i].Load()
+			}
+			ok := false
+			for lim := time.Now().Add(10 * time.Second); !ok && time.Now().Before(lim); {
+				time.Sleep(2 * time.Millisecond)
+				ok = true
+				for i := range counters {
+					if counters[i].Load() < before[i]+3 {
+						ok = false
+					}
+				}
+			}
+			if !ok || gerr == nil {
+				lockLeak = 1
+			}
+		}
+		if lockLeak == 1 {
+			// every further call on the store would block: report this history and leave its goroutines behind
+			emit("concstore\treaders=%d\treads=%d\tbad=%d\twrongname=%d\tnonmono=%d\twindows=%d\tstalled=%d\tpanics=%d\tafterclose=1\tdropped_pinned=0\tupd_bad=0\tupd_nonmono=0\tlookup_fail=0\tmax_cond_waiting=%d\tlock_leak=1",
+				nreaders, reads.Load(), bad.Load(), wrong.Load(), nonmono.Load(), windows, stalled, panics.Load(), g.maxCondWaiting.Load())
+			continue
+		}
 		// quiescent: after one more successful refresh every handle - however it was obtained -
 		// yields the service's current version of its secret
 		staleAfter := -1
@@ -457,8 +532,8 @@ func traceConcStore(t *testing.T, o opts) {
 		afterClose := reads.Load() - afterBefore
 		close(stop)
 		wg.Wait()
-		emit("concstore\treaders=%d\treads=%d\tbad=%d\twrongname=%d\tnonmono=%d\twindows=%d\tstalled=%d\tpanics=%d\tafterclose=%d\tdropped_pinned=%d\tupd_bad=%d\tupd_nonmono=%d\tlookup_fail=%d\tmax_cond_waiting=%d\tstale_after_refresh=%d\tlate_flight_fail=%d\tlookup_panics=%d\tupd_e_stale=%d\tbelow_floor=%d\t%s",
-			nreaders, reads.Load(), bad.Load(), wrong.Load(), nonmono.Load(), windows, stalled, panics.Load(), afterClose, dropped, ubad.Load(), unonmono.Load(), lookupFail.Load(), g.maxCondWaiting.Load(), staleAfter, lateFlight, lookupPanics.Load(), updEStale, belowFloor, cu)
+		emit("concstore\treaders=%d\treads=%d\tbad=%d\twrongname=%d\tnonmono=%d\twindows=%d\tstalled=%d\tpanics=%d\tafterclose=%d\tdropped_pinned=%d\tupd_bad=%d\tupd_nonmono=%d\tlookup_fail=%d\tmax_cond_waiting=%d\tstale_after_refresh=%d\tlate_flight_fail=%d\tlookup_panics=%d\tupd_e_stale=%d\tbelow_floor=%d\tnil_but_stale=%d\t%s",
+			nreaders, reads.Load(), bad.Load(), wrong.Load(), nonmono.Load(), windows, stalled, panics.Load(), afterClose, dropped, ubad.Load(), unonmono.Load(), lookupFail.Load(), g.maxCondWaiting.Load(), staleAfter, lateFlight, lookupPanics.Load(), updEStale, belowFloor, nilButStale, cu)
 	}
 }
 
